@@ -129,7 +129,7 @@ def check(run, probe_values=None):
     p = core.run_rs("c14", ["run", work, run.tier, run.seed, n_a, n_w, n_b, ppath], timeout=1800)
     summ = json.loads(p.stdout.strip().splitlines()[-1])
     files = [os.path.join(work, f["file"]) for f in summ["a_files"] + summ["w_files"] + summ["b_files"]]
-    if {a["order"] for a in summ.get("again", [])} != {"descending", "permuted", "sample_ascending", "ai_descending"} \
+    if {a["order"] for a in summ.get("again", [])} != {"descending", "permuted", "sample_ascending", "ai_descending", "ai_after_supplied"} \
             or any(a["calls"] < len(summ["a_files"]) for a in summ["again"]):
         raise core.ToolError("harness did not repeat the calls in the other orders")
     if summ["domain_calls"] != 1 << 24 or not summ["a_files"] or (summ["some"] and not summ["b_files"]):
@@ -275,7 +275,7 @@ def check(run, probe_values=None):
         "the harness orders the returned registrations by text; TLC checks the order is strict (so a wrong order "
         "alarms) and the engine checks the dump holds as many entries as the sweep",
         "function_of_address: three call orders of tail() (ascending, descending, stride-permuted with out-of-range "
-        "values interleaved) and two of aircraft_information on the sample; state surviving longer is not exercised",
+        "values interleaved) and two of aircraft_information on the sample, plus the reverse lookup repeated after a call that supplies a registration (the optional argument) for every third sampled address; state surviving longer is not exercised",
         "out-of-range values: 7 extremes, upper-byte aliases of every rule edge, 20 000 seeded random",
     ]
 
